@@ -265,7 +265,9 @@ def run_R(ctx, exe, hists, tag):
                 rc1, out1 = _run(exe, tmp)
                 l1 = [l for l in out1 if " => " in l or l.endswith("=>")]
                 bad = rc1 != 0 or len(l1) != len(h)
-                res.append((l1, bad, "\n".join(out1[-25:]) if bad else ""))
+                key = [x for x in out1 if "ERROR:" in x or "SUMMARY:" in x or x.lstrip().startswith(("#0 ", "#1 ", "#2 ", "#3 ", "#4 "))
+                       or "runtime error" in x]
+                res.append((l1, bad, "\n".join((key or out1[-12:])[:14]) if bad else ""))
         i += len(batch)
     for sfx in (".in", ".hdf"):
         try:
